@@ -4,6 +4,7 @@ CONSTANTS
   Bodies <- BodiesTwice
   Modes <- AllModes
   ValueChoices <- TwoValueLists
+  Ends <- TwoEnds
   Seconds <- SecondsQ
   TickMs <- Ticks1
   MaxTicks = 2
